@@ -59,7 +59,7 @@ def replay(ctx, path):
 
 META = {
     "engine": "coq+absdump",
-    "technique": "Coq proof that the cleanup/post-return decision equals 'the type can hold a heap buffer (or owned handle)'; token-for-token correspondence of real deallocation streams with the extracted model; extracted interpreter with an allocation ledger checks exactly-once frees and handle drops on real streams",
-    "text": "Theorems (all types): needs_deallocate in lists mode = can-hold-a-heap-buffer, in lists-and-own mode = that or can-hold-an-owned-handle; post-return generated iff the result can hold a heap buffer. The deallocation programs (direct and indirect operands, both modes, post_return) of every explored type equal the model's token for token, and executing the REAL programs on spec-lowered values leaves the ledger empty (each buffer freed exactly once with its size/alignment, nothing else) and drops exactly the owned handles in lists-and-own mode. Found and repaired two genuine defects this way (fixed-length lists not freed; error-context forcing a post-return).",
-    "note": "Proved part: the decision half; the ledger half is executed on real streams (differential). Trusted as for C01.",
+    "technique": "Coq proofs (induction over all types): the cleanup/post-return decision equals 'the type can hold a heap buffer (or owned handle)'; the in-memory cleanup traversal never panics and is stack-neutral; the direct-operand cleanup never panics and consumes exactly the flattened operands; token-for-token correspondence of real deallocation streams with the extracted model; extracted interpreter with an allocation ledger checks exactly-once frees and handle drops on real streams",
+    "text": "Theorems (all types): deallocate_indirect reaches no panic site and leaves the operand stack as found (both modes); deallocate consumes exactly |flatten(t)| operands on every fitting type whose flags have 1..32 members (the two-word-flags case is refuted by computation: one operand is left behind - unreachable for component-model-valid types); needs_deallocate in lists mode = can-hold-a-heap-buffer, in lists-and-own mode = that or can-hold-an-owned-handle; post-return generated iff the result can hold a heap buffer. The deallocation programs (direct and indirect operands, both modes, post_return) of every explored type equal the model's token for token, and executing the REAL programs on spec-lowered values leaves the ledger empty (each buffer freed exactly once with its size/alignment, nothing else) and drops exactly the owned handles in lists-and-own mode. Found and repaired two genuine defects this way (fixed-length lists not freed; error-context forcing a post-return).",
+    "note": "Proved part: the decision half and the stack discipline / panic freedom of both cleanup traversals; the ledger half is executed on real streams (differential). Trusted as for C01.",
 }
